@@ -1342,8 +1342,13 @@ int QSexact_verify (
             y_mpq = QScopy_array_dbl_mpq(y_dbl);
             
             /* test optimality of constructed solution */
-            basis = dbl_QSget_basis(p_dbl);
-            rval = QSexact_optimal_test(p_mpq, x_mpq, y_mpq, basis);
+            /* the basis the double solve ended in is only used for this test; the
+             * caller's basis must stay the one judged below (and must not leak) */
+            {
+               QSbasis *dbl_basis = dbl_QSget_basis(p_dbl);
+               rval = dbl_basis ? QSexact_optimal_test(p_mpq, x_mpq, y_mpq, dbl_basis) : 0;
+               mpq_QSfree_basis(dbl_basis);
+            }
             if( rval )
             {
                *result = 1;
@@ -1393,8 +1398,11 @@ int QSexact_verify (
             mpq_EGlpNumSet(y_mpq[i], dbl_d_sol[i]);
             
          /* test optimality of constructed solution */
-         basis = dbl_QSget_basis(p_dbl);
-         rval = QSexact_optimal_test(p_mpq, x_mpq, y_mpq, basis);
+         {
+            QSbasis *dbl_basis = dbl_QSget_basis(p_dbl);
+            rval = dbl_basis ? QSexact_optimal_test(p_mpq, x_mpq, y_mpq, dbl_basis) : 0;
+            mpq_QSfree_basis(dbl_basis);
+         }
          if( rval )
          {
             *result = 1;
